@@ -149,6 +149,8 @@ def run(ck, tier):
     _acc2.run2(ck, F, 'C14')
     from . import relations as _rel
     _rel.run(ck, F, 'C14')
+    from . import guards as _grd
+    _grd.run(ck, F, 'C14')
     from . import c14x
     c14x.run(ck, F)
     ck.rule("C14.reset-completeness", "the emitting method of each push decoder re-initialises every accumulation field listed for it, and those fields "
